@@ -76,7 +76,8 @@ def mapping_rules(chk):
                 return False
             return None
 
-        it = Interp(prog, fi, call_hook=call_hook, sub_hook=sub_hook, decide=decide, unroll=1)
+        # (private helpers of the module that the loader delegates to are read in place)
+        it = Interp(prog, fi, call_hook=call_hook, sub_hook=sub_hook, decide=decide, unroll=1, inline=lambda f, ct: f.cls is None and not f.is_async and f.module is fi.module and f.name.startswith("_"))
         return it, it.run()
 
     r = "O14.1"
